@@ -6,6 +6,7 @@ import (
 	"go/ast"
 	"go/printer"
 	"go/token"
+	"go/types"
 	"io"
 	"os"
 	"path/filepath"
@@ -223,6 +224,48 @@ func emitValidateTables(p *pkgInfo, w *bytes.Buffer) {
 
 // ---- write sites ---------------------------------------------------------
 
+// libWriter reports whether the called function is a standard-library routine
+// that writes into a slice argument (resolved through the type checker, so
+// pem.Decode, which only reads, is not confused with hex.Decode).
+func libWriter(p *pkgInfo, fun ast.Expr) (string, bool) {
+	var id *ast.Ident
+	switch f := fun.(type) {
+	case *ast.SelectorExpr:
+		id = f.Sel
+	case *ast.Ident:
+		id = f
+	default:
+		return "", false
+	}
+	fn, ok := p.info.Uses[id].(*types.Func)
+	if !ok || fn.Pkg() == nil {
+		return "", false
+	}
+	pkg, name := fn.Pkg().Path(), fn.Name()
+	full := pkg + "." + name
+	sig, _ := fn.Type().(*types.Signature)
+	isMethod := sig != nil && sig.Recv() != nil
+	switch {
+	case isMethod && (name == "Read" || name == "ReadAt" || name == "FillBytes" || name == "XORKeyStream" || name == "PutUint16" || name == "PutUint32" || name == "PutUint64"):
+		return full, !strings.HasPrefix(name, "PutUint") // PutUintN already listed as "put"
+	case isMethod && pkg == "encoding/base64" && (name == "Decode" || name == "Encode"):
+		return full, true
+	case isMethod && pkg == "encoding/binary" && strings.HasPrefix(name, "AppendUint"):
+		return full, true
+	}
+	switch full {
+	case "encoding/hex.Decode", "encoding/hex.Encode", "io.ReadFull", "io.ReadAtLeast", "crypto/rand.Read",
+		"sort.Slice", "sort.SliceStable", "sort.Sort", "sort.Stable", "crypto/subtle.ConstantTimeCopy", "crypto/subtle.XORBytes",
+		"encoding/binary.Read", "slices.Sort", "slices.SortFunc", "slices.SortStableFunc", "slices.Reverse", "slices.Insert",
+		"slices.Delete", "slices.Compact", "slices.Grow", "unicode/utf8.AppendRune", "unicode/utf8.EncodeRune":
+		return full, true
+	}
+	if (pkg == "strconv" || pkg == "fmt") && strings.HasPrefix(name, "Append") {
+		return full, true
+	}
+	return "", false
+}
+
 type writeSite struct {
 	file, fn, kind, dst, class string
 	line                       int
@@ -421,6 +464,19 @@ func scanWrites(p *pkgInfo, file string, fd *ast.FuncDecl) []writeSite {
 				}
 			case strings.HasPrefix(name, "PutUint") && len(s.Args) == 2:
 				add(s.Pos(), "put", s.Args[0])
+			default:
+				// library routines that write into a slice argument: the destination is
+				// the first argument of slice type
+				if full, ok := libWriter(p, s.Fun); ok {
+					for _, a := range s.Args {
+						if tv, ok := p.info.Types[a]; ok && tv.Type != nil {
+							if _, isSlice := tv.Type.Underlying().(*types.Slice); isSlice {
+								add(s.Pos(), "libwrite:"+full, a)
+								break
+							}
+						}
+					}
+				}
 			}
 		}
 		return true
